@@ -473,6 +473,11 @@ def _known_bool(fn, l, pm, fm, depth=0):
         p = o["p"]
         if not p[1]:
             return _known_bool(fn, p[0], pm, fm, depth + 1)
+        # a captured flag of a closure body: _1.k or *(_1.k)
+        if fn.parent_fn and p[0] == 1:
+            ks = [e[1] for e in p[1] if isinstance(e, list) and e[0] == "."]
+            if len(ks) == 1 and f"#upvar{ks[0]}" in fm:
+                return fm[f"#upvar{ks[0]}"]
         # field of self
         names = [e[2] for e in p[1] if isinstance(e, list) and e[0] == "."]
         if names and p[0] == 1 and names[-1] in fm:
@@ -572,7 +577,27 @@ def specialised_reach(prog, entries, stop=()):
             continue
         live = live_blocks(fn, pm, fm)
         for c in prog.closures_of(fn):
-            work.append((c.id, {}, {}, (fid, c.line)))
+            # a closure that captures self reads the same fields: the context's knowledge of them carries over; a captured
+            # flag (by value or by reference to a field of self) is known inside as upvar k
+            cfm = dict(fm)
+            for cb, ci, cs in fn.assigns():
+                rv = cs["rv"]
+                if rv["k"] == "agg" and rv.get("ak") == "closure" and rv.get("def") == c.id and cb in live:
+                    for k, o in enumerate(rv["f"]):
+                        l = op_local(o)
+                        if l is None:
+                            continue
+                        v = _known_bool(fn, l, pm, fm) if fn.locals[l]["ty"] == "bool" else None
+                        if v is None:
+                            d = fn.single_def(l)
+                            if d and d[0] == "stmt" and d[3]["rv"]["k"] == "ref":
+                                pl = d[3]["rv"]["p"]
+                                names = [e[2] for e in pl[1] if isinstance(e, list) and e[0] == "."]
+                                if names and names[-1] in fm and (pl[0] == 1 or fn.src(pl[0]) == ("param", 1)):
+                                    v = fm[names[-1]]
+                        if v is not None:
+                            cfm[f"#upvar{k}"] = v
+            work.append((c.id, {}, cfm, (fid, c.line)))
         for b in live:
             t = fn.blocks[b]["term"]
             if t["k"] not in ("call", "tailcall"):
